@@ -15,8 +15,8 @@ CHECKS = {
                  "alias_factory_subclass_from_arg returns instances unchanged, treats str as alias, pops 'alias' then "
                  "(only if absent) 'name' from a fresh copy and forwards the rest, and every annotated alias parameter "
                  "is normalised with its own family. Decides these structural clauses, NOT bit-identity of features "
-                 "of alias-built and explicitly built computers. Also: the values of a configuration mapping reach the constructor unchanged (no filtering or transforming copy), and nothing in alias.py is memoised (every resolution builds a new object)."),
-        "design_ref": "DESIGN.md §3 C08, §10.10, §10.11",
+                 "of alias-built and explicitly built computers. Also: the values of a configuration mapping reach the constructor unchanged (no filtering or transforming copy), and nothing in alias.py is memoised (every resolution builds a new object). Wave 10: a mapping of any type is accepted as keyword arguments (no isinstance test narrower than Mapping whose complement builds nothing)."),
+        "design_ref": "DESIGN.md §3 C08, §10.10, §10.11, §10.15",
         "note": NOTE_COMMON + "Assumes module import order does not matter (true while no alias is shared inside a family; the check exits 2 otherwise).",
         "technique": "static analysis: exhaustive class-table/alias-registry check, CFG dominance and reaching-definition rules on the factory functions",
     },
@@ -30,8 +30,8 @@ CHECKS["C09"] = {
              "chains exist, the only exclusions are the documented ones, one shared path-or-inline JSON/YAML parser, seed "
              "provenance (given --seed reaches the RNG first, no hash/id/time in the per-item seed), exhaustive NumPy->torch "
              "conversion. Does NOT decide numerical equality of stored and library features; that part of the property "
-             "quantifies over signal values and is out of reach of static analysis. Also: the processor collections walked per utterance are real sequences (no one-shot iterators); the per-item seed depends on the base seed and the utterance's identity only (taint analysis shared with C10, live dict views followed); as a premise, the value rule of the pre-processors (in-place variants equal the plain call) is re-established."),
-    "design_ref": "DESIGN.md §3 C09, §10.10, §10.11",
+             "quantifies over signal values and is out of reach of static analysis. Also: the processor collections walked per utterance are real sequences (no one-shot iterators); the per-item seed depends on the base seed and the utterance's identity only (taint analysis shared with C10, live dict views followed); as a premise, the value rule of the pre-processors (in-place variants equal the plain call) is re-established. Wave 10: the wave rspecifier is opened exactly once (it may be a pipe); np.random.seed gets --seed whenever it is given (0 included), by forward substitution; the torch wrappers hand every input to the wrapped object (C14's wrapper rule re-established)."),
+    "design_ref": "DESIGN.md §3 C09, §10.10, §10.11, §10.15",
     "note": NOTE_COMMON + "pydrobert.kaldi / torch I/O are trusted to store what they are given.",
     "technique": "static analysis: forward substitution of the write's def-use chain into a pipeline normal form, argparse-dest and family attribute tables, guard enumeration, seed provenance",
 }
@@ -42,8 +42,8 @@ CHECKS["C10"] = {
              "next iteration and exit, append+read mode, rewind and filter before the dataset is built, per-item seed free of "
              "manifest-filtered positions (flow-sensitive taint through tool function and dataset class), re-seed before any "
              "random draw, order-preserving DataLoader. Each is a necessary condition: breaking it breaks the property for "
-             "some kill point / resume. Also: membership tests against the manifest are made on its lines, not inside its text; seed tables are aligned with the collection they are indexed by; as a premise, the reset rule of both frame computers (one computer per process is re-used across utterances) is re-established."),
-    "design_ref": "DESIGN.md §3 C10, §10.9-§10.11",
+             "some kill point / resume. Also: membership tests against the manifest are made on its lines, not inside its text; seed tables are aligned with the collection they are indexed by; as a premise, the reset rule of both frame computers (one computer per process is re-used across utterances) is re-established. Wave 10: serving an item stores nothing on the dataset object; no deserialising call reads a file of the output directory back (an unlisted file may be cut short)."),
+    "design_ref": "DESIGN.md §3 C10, §10.9-§10.11, §10.15",
     "note": NOTE_COMMON + "Atomicity of torch.save and fsync-level durability are not decided (a half-written file is never listed, by save-before-ack).",
     "technique": "static analysis: CFG dominance / must-flush path rules and flow-sensitive taint (manifest-filtered membership -> position) of the per-item seed",
 }
@@ -67,8 +67,8 @@ CHECKS["C13"] = {
              "signedness discipline of the bit reader, exhaustive command and sample-type dispatch with error fall-through, "
              "premature-end error not swallowed, DIFF0-3/QLPC stencils in normal form, running-mean read/update and C "
              "division for versions 1 and 2, wrap / bit-shift fix-up / interleave applied to every block command. Does NOT "
-             "decide losslessness over all encoder outputs: that needs an encoder and execution. Also: initial running means per sample type by evaluation of the dispatch; vectorised QLPC: width, tap order and the flooring of the scaled prediction (evaluated on both sides of zero)."),
-    "design_ref": "DESIGN.md §3 C13, §10.9, §10.10",
+             "decide losslessness over all encoder outputs: that needs an encoder and execution. Also: initial running means per sample type by evaluation of the dispatch; vectorised QLPC: width, tap order and the flooring of the scaled prediction (evaluated on both sides of zero). Wave 10: the command number is only compared until the dispatch has recognised it (no indexing with an unbounded Rice code)."),
+    "design_ref": "DESIGN.md §3 C13, §10.9, §10.10, §10.15",
     "note": NOTE_COMMON + "The reference arithmetic is transcribed in pdsa/rules/c13.py (REF) from shorten_x.c.",
     "technique": "static analysis: signedness typing, exhaustive dispatch tables, stencil / mean closed forms compared with the reference decoder, control-dependence of post-block steps",
 }
@@ -82,8 +82,8 @@ CHECKS["C01"] = {
              "finalize never reflects further back than the samples it pads; both are decided by normal-form identity where "
              "possible and otherwise by exact evaluation of the extracted formulas on a declared grid (bounded: L in 1..12,16,25, "
              "S <= L, N <= 3L+2); streaming and one-shot framing geometry agree as closed forms; carried state is written on every "
-             "exit and reset by finalize. Two-chunk law: in the steady state, feeding N1 then N2 samples emits the frames and leaves the carried scalars of feeding N1 + N2 at once (closed forms composed and evaluated exactly on a grid of L, S, carried states within the invariants and chunk pairs including empty and one-sample chunks); a frame style the constructor accepts is stored as one of the two literals the framing code compares with. Equality of frame VALUES and buffer CONTENTS across chunkings is NOT decided."),
-    "design_ref": "DESIGN.md §3 C01, §10.2, §10.10, §10.11",
+             "exit and reset by finalize. Two-chunk law: in the steady state, feeding N1 then N2 samples emits the frames and leaves the carried scalars of feeding N1 + N2 at once (closed forms composed and evaluated exactly on a grid of L, S, carried states within the invariants and chunk pairs including empty and one-sample chunks); a frame style the constructor accepts is stored as one of the two literals the framing code compares with. Equality of frame VALUES and buffer CONTENTS across chunkings is NOT decided. Wave 10: no raise or assertion of the streaming interface depends on the memory layout of its input (.flags/.strides)."),
+    "design_ref": "DESIGN.md §3 C01, §10.2, §10.10, §10.11, §10.15",
     "note": NOTE_COMMON + "The two streaming/one-shot discrepancies named in the property were found by these rules and repaired (fix: 4fe22b9, eb5740a).",
     "technique": "static analysis: exact-cover rule on the driver; closed-form summary of the one-chunk history (forward substitution, idempotent-loop summary) compared with compute_full's closed forms, bounded grid evaluation of the extracted integer formulas where normal forms differ; sibling agreement of framing geometry; CFG must-write rule; two-chunk composition of the closed-form state transition on a grid; evaluation of the constructor's validation for alternative spellings",
 }
@@ -93,8 +93,8 @@ CHECKS["C02"] = {
              "documented definition as exact closed forms valid for all L, S, N, D (odd and even): thresholds, paddings, frame "
              "count/slices, mirrored-bin capacity / first bin / direction / conjugation, walk structure, real doubling, log floor, "
              "energy, default frame length and DFT size. Does NOT decide that floating-point sums equal the full-spectrum "
-             "definition for all banks and signals, nor the values of get_truncated_response (C06). Also: config.LOG_FLOOR_VALUE is read at call time (no default argument, module constant or from-import captures it)."),
-    "design_ref": "DESIGN.md §3 C02, §10.11",
+             "definition for all banks and signals, nor the values of get_truncated_response (C06). Also: config.LOG_FLOOR_VALUE is read at call time (no default argument, module constant or from-import captures it). Wave 10: the segment walk (which bin meets which tap, conjugated or not) is decided by evaluating the constructor's and the frame routine's loops with the checker's own interpreter (pdsa/walk.py) for every DFT size 2..10, start bin and run length; compute_full refuses no input for its memory layout."),
+    "design_ref": "DESIGN.md §3 C02, §10.11, §10.15",
     "note": NOTE_COMMON + "len(np.fft.rfft(x, n=D)) = D//2+1 is taken from NumPy's documented contract.",
     "technique": "static analysis: forward substitution into quasi-affine / rational normal forms compared with the documented geometry (residue tables, witnesses); structural walk rules",
 }
@@ -104,8 +104,8 @@ CHECKS["C14"] = {
              "spec compute.py is checked against under C02) as exact closed forms, the same column count on every return, "
              "symmetric padding, parameter name-flow without crossed wires through factory -> constructor -> attribute -> forward, "
              "matching reductions / doubling / log floor / energy, and that the wrappers delegate and re-wrap. Does NOT decide "
-             "numerical agreement to working precision, TorchScript semantics or the dither's distribution."),
-    "design_ref": "DESIGN.md §3 C14",
+             "numerical agreement to working precision, TorchScript semantics or the dither's distribution. Wave 10: the noise draw is PyTorchDither's only use of the process-wide generator over its call closure (torch.seed() re-seeds); a wrapper branch that returns without calling the wrapped object is reported; the NumPy constructor stores the bank's start bins and responses unmodified (a premise of from_stft_frame_computer, which copies them)."),
+    "design_ref": "DESIGN.md §3 C14, §10.15",
     "note": NOTE_COMMON + "spect.size(1) of torch.fft.rfft(x, D, 1) = D//2+1 is taken from torch's documented contract.",
     "technique": "static analysis: closed-form twin comparison with the documented geometry, 4-hop name-flow, structural reduction/wrapper rules",
 }
@@ -168,8 +168,8 @@ CHECKS["C18"] = {
              "working copy unless in_place on float64, x[...,1:] -= coeff*x[...,:-1] along the chosen axis with sample 0 kept, "
              "numpy.random.normal(0, coeff, shape-only) added once, cast back to the input dtype; no chunked update; torch twins; "
              "in-place writes only with in_place (flag-sensitive effect analysis); global generator, no instance state. "
-             "Does NOT decide distributional facts. Also: with in_place false the returned value never shares memory with the argument (path-sensitive result-aliasing analysis)."),
-    "design_ref": "DESIGN.md §3 C18, §10.6, §10.11",
+             "Does NOT decide distributional facts. Also: with in_place false the returned value never shares memory with the argument (path-sensitive result-aliasing analysis). Wave 10: the noise draw is Dither.apply's only use of numpy's process-wide generator over its call closure, at most once per path."),
+    "design_ref": "DESIGN.md §3 C18, §10.6, §10.11, §10.15",
     "note": NOTE_COMMON,
     "technique": "static analysis: forward substitution + scenario evaluation of the returned value against the documented closed form, effect analysis with the in_place flag, provenance of the random draw's arguments, purity; disjunctive (path-sensitive) alias analysis of the returned value",
 }
@@ -204,8 +204,8 @@ CHECKS["C03"] = {
              "reaching the forward transform is float64/complex128; results carry the first chunk's dtype; non-floating input is "
              "refused first), that forward/inverse transforms are matching pairs under one predicate with explicit lengths, uniform "
              "filter / energy-impulse preparation, window geometry, log floor, and the finalize frame-count closed form. Does NOT "
-             "decide numerical equality with the convolution definition; the total frame count is a function of run-time counters. Also: the roll shift of the centred filters as a value in every bank-kind alternative; config.LOG_FLOOR_VALUE is read at call time."),
-    "design_ref": "DESIGN.md §3 C03, §10.9, §10.11",
+             "decide numerical equality with the convolution definition; the total frame count is a function of run-time counters. Also: the roll shift of the centred filters as a value in every bank-kind alternative; config.LOG_FLOOR_VALUE is read at call time. Wave 10: the frame handed back is the sum of the two half-window accumulators in every option setting, by value; compute_full refuses no input for its memory layout."),
+    "design_ref": "DESIGN.md §3 C03, §10.9, §10.11, §10.15",
     "note": NOTE_COMMON + "Bank impulse responses are float64/complex128 by their documented contract.",
     "technique": "static analysis: dtype lattice (NEP 50), sibling agreement of transform branches, structural preparation rules, closed-form frame count",
 }
@@ -214,8 +214,8 @@ CHECKS["C11"] = {
     "text": ("Decides agreement of the four force_as tables with the documented names, error types on every path, stream guards "
              "before any reader, the final-cast form of each per-container reader (dtype never handed to a rescaling decoder), keyed "
              "defaults, wave reshape, and that wds_read_signal cannot raise. Does NOT decide bit-identity through third-party "
-             "decoders (soundfile, h5py, torch, scipy). Also: the soundfile type is the text after the last dot for every name (extension-idiom table with the known deviations of pathlib / os.path.splitext); the package's own SPHERE decoder reads relative to the stream position; with a dtype requested the raw-binary reader interprets the bytes as that dtype."),
-    "design_ref": "DESIGN.md §3 C11, §10.9, §10.10",
+             "decoders (soundfile, h5py, torch, scipy). Also: the soundfile type is the text after the last dot for every name (extension-idiom table with the known deviations of pathlib / os.path.splitext); the package's own SPHERE decoder reads relative to the stream position; with a dtype requested the raw-binary reader interprets the bytes as that dtype. Wave 10: no reduction without an identity is applied to the data read (a zero-length signal is read back like any other)."),
+    "design_ref": "DESIGN.md §3 C11, §10.9, §10.10, §10.15",
     "note": NOTE_COMMON,
     "technique": "static analysis: literal-table agreement, CFG guard dominance, sibling rule on reader return forms and decoder-dtype provenance",
 }
@@ -236,8 +236,8 @@ CHECKS["C06"] = {
     "text": ("Decides: half-spectrum length width//2+1 (quasi-affine, odd and even), highest vertex <= Nyquist for every accepted "
              "range (order-type enumeration), start-bin forms, truncated and full responses share per-bin formula / helper and bin "
              "bounds, Hermitian store iff not half and not analytic with the same value, whole-period fallback, memo-free response "
-             "methods. Does NOT decide the 2 x threshold bound for Gabor/gammatone truncation nor wrap-around at small widths."),
-    "design_ref": "DESIGN.md §3 C06",
+             "methods. Does NOT decide the 2 x threshold bound for Gabor/gammatone truncation nor wrap-around at small widths. Wave 10: no reduction without an identity (max/min/argmax) is applied to a truncated response, which may be empty."),
+    "design_ref": "DESIGN.md §3 C06, §10.15",
     "note": NOTE_COMMON,
     "technique": "static analysis: quasi-affine closed form, order-type enumeration, sibling agreement of formulas in normal form, structural store rules, purity rule",
 }
@@ -248,8 +248,8 @@ CHECKS["C07"] = {
              "pair of one Gaussian with one constant (unit gain or unit L2 norm) and the advertised Gabor supports are where that "
              "Gaussian falls to the threshold (closed forms, exact); the gammatone support end is the threshold crossing in the "
              "response's own (shifted) time frame; signs of the advertised temporal supports; the threshold is read at call time; "
-             "memo-free response methods."),
-    "design_ref": "DESIGN.md §3 C07, §10.2",
+             "memo-free response methods. Wave 10: what each period adds to a gammatone response is H at the shifted grid, unaltered (forward substitution follows whole-array views such as x.view(np.float64))."),
+    "design_ref": "DESIGN.md §3 C07, §10.2, §10.15",
     "note": NOTE_COMMON + "Nothing about tolerances is claimed. The max_centered gammatone support defect named in the property was found by R-C07-support-frame and repaired (fix: b7714e5).",
     "technique": "static analysis: closed forms of the Gabor normalisation / supports in log-linear normal form, time-frame rule on the gammatone threshold search, dtype/flag correlation, sign-domain rule, call-time configuration rule, purity rule",
 }
